@@ -249,7 +249,7 @@ FRAGS = (
 
 BODY = dict(
     song=["Resolution = 192", "Resolution = 0", "Resolution = 1", "Resolution = 99999999", 'Name = "x"', "Player2 = bass", "Player2 = drums", "Offset = x", "0 = B 1", "", "garbage", 'Resolution = "192"', 'Offset = "5"', "Genre = "],
-    sync=["0 = B 120000", "0 = B 0", "0 = B 1", "0 = TS 4", "0 = TS 4 63", "0 = TS 0 0", "99999999 = B 99999999", "5 = B 60000", "5 = TS 1", "3 = A 99999999", "0 = N 0 0", "", "garbage", "99999999 = TS 3"],
+    sync=["0 = B 120000", "0 = B 0", "0 = B 1", "0 = TS 4", "0 = TS 4 63", "0 = TS 0 0", "99999999 = B 99999999", "5 = B 60000", "5 = TS 1", "3 = A 99999999", "0 = N 0 0", "", "garbage", "99999999 = TS 3", "5 = B 0", "7 = B 0", "99999999 = B 0"],
     events=['0 = E "section a"', '0 = E "lyric b"', '0 = E "x"', '99999999 = E "far"', '5 = E ""', "0 = E solo", "", "garbage", '7 = E "lyric "', '2 = E "a"b"'],
     track=["0 = N 0 0", "0 = N 5 0", "0 = N 6 0", "0 = N 7 99999999", "99999999 = N 4 99999999", "5 = N 1 3", "5 = N 2 4", "0 = S 2 5", "5 = S 2 0", "0 = E solo", "5 = N 7 0", "", "garbage", "0 = S 64 1", "0 = E ", "7 = E \t", '3 = E ""'],
 )
